@@ -215,7 +215,6 @@ class Obs:
         acceptable (an error is a way of flagging invalid numbers; a representation that is not one of
         the library's own may be refused)."""
         geom = {"nrows": G[0], "ncols": G[1], "xll": G[2], "yll": G[3], "csz": G[4]}
-        cm.mark(dict(geom, call=name, arg=repr(arg)[:300], representation=rep, **extra))
         try:
             with np.errstate(all="ignore"):
                 return True, f(arg)
@@ -316,7 +315,6 @@ class Obs:
         extra = extra or {}
         nrows, ncols = G[0], G[1]
         n = nrows * ncols
-        cm.mark({"call": "neighbours", "shape": [nrows, ncols], "idx": idx, "representation": rep, **extra})
         try:
             ng = [int(v) for v in g.neighbours(arg)]
         except ValueError:
@@ -389,7 +387,6 @@ class Obs:
         extra = extra or {}
         nrows, ncols, xll, yll, csz = G
         geom = {"nrows": nrows, "ncols": ncols, "xll": xll, "yll": yll, "csz": csz}
-        cm.mark(dict(geom, call="xvalues/yvalues", **extra))
         self.ctx.count(("xvalues", nrows == 1, ncols == 1, bool(extra)))
         try:
             xv, yv = g.xvalues, g.yvalues
@@ -634,6 +631,7 @@ def run(ctx):
             g = mkgrid(nrows, ncols, 0., 0., 1.)
             G = (nrows, ncols, 0., 0., 1.)
             n = nrows * ncols
+            cm.mark({"grid": list(G), "calls": "cell2rowcol / neighbours / cell2coord, every cell number -2..n+1"})
             ids = list(range(-2, n + 2))
             obs.cell2rowcol(g, G, np.array(ids), ids)
             for idx in ids:
@@ -660,6 +658,7 @@ def run(ctx):
         g = mkgrid(nrows, ncols, xll, yll, csz)
         n = nrows * ncols
         G = (nrows, ncols, xll, yll, csz)
+        cm.mark({"grid": list(G), "calls": "cell functions, all representations"})
         # cell2coord of valid and invalid cells
         ids = sorted(set([-1, 0, n - 1, n, n + 3] + [rng.randrange(n) for _ in range(6)]))
         obs.cell2coord(g, G, np.array(ids), ids)
